@@ -4,7 +4,7 @@ Clause bodies are *strings holding Python expressions*; they are parsed (ast) an
 same symbolic evaluator that executes the code, in spec mode (old(), result, implies(), forall ...).
 """
 import ast
-from .core import INT, REAL, BOOL, STR, ANY, REF, TUP, OPT, LIST, DICT, SORTED_DICT, PYTUP, MAP, SpecError  # noqa: F401
+from .core import INT, REAL, BOOL, STR, ANY, REF, TUP, OPT, LIST, DICT, SORTED_DICT, PYTUP, SET, MAP, SpecError  # noqa: F401
 
 
 class Model:
